@@ -460,6 +460,9 @@ func convStructToTarget(source interface{}, target reflect.Type) (interface{}, e
 
 func convMapToTarget(source interface{}, target reflect.Type) (interface{}, error) {
 	st := reflect.TypeOf(source)
+	if st == nil || st.Kind() != reflect.Map {
+		return nil, fmt.Errorf("can't conv type %T to map", source)
+	}
 	if st.Key() != target.Key() {
 		return nil, fmt.Errorf("convMapToTarget error map key type %T != %T", st.Key(), target.Key())
 	}
@@ -481,7 +484,7 @@ func convMapToTarget(source interface{}, target reflect.Type) (interface{}, erro
 
 func convArrayTypeToTarget(source interface{}, target reflect.Type) (interface{}, error) {
 	sourceValue := reflect.ValueOf(source)
-	if sourceValue.Type() == nil || (sourceValue.Type().Kind() != reflect.Array && sourceValue.Type().Kind() != reflect.Slice) {
+	if !sourceValue.IsValid() || (sourceValue.Type().Kind() != reflect.Array && sourceValue.Type().Kind() != reflect.Slice) {
 		return nil, fmt.Errorf("can't conv type %T to array", source)
 	}
 	sliceValue := reflect.MakeSlice(target, 0, 0)
